@@ -84,9 +84,151 @@ def check(acc, tag, ast, envs, text=None):
             acc.samples.append({"text": short(text, 160), "layout": "exposed", "module_head": short(g[1], 200)})
 
 
+T2 = 'def exp {{ splitters: uid if country == {0} {{ return "a" weighted 3, "b" weighted 1 }} else {{ return "c" weighted 1 }} }}'
+T3 = 'def exp {{ splitters: uid if country {0} {{ return "a" weighted 3, "b" weighted 1 }} else {{ return "c" weighted 1 }} }}'
+L1 = 'def exp { splitters: uid return "a" weighted 3 // , "b" weighted 1\n , "z" weighted 1 }'
+CHAINS = [[T2.format('"us"'), T2.format("us"), T2.format('"us"'), T2.format("'us'")], [T2.format('"1"'), T2.format("1"), T2.format("1.0")], [T2.format("n"), T2.format('"n"')],
+          [T3.format('in ("us", "ca")'), T3.format('not in ("us", "ca")'), T3.format('in ("us" , "ca")')], [T3.format('== "us" or n == 1'), T3.format('== "us" and n == 1')],
+          [L1, L1.replace("//", "//\n", 1).replace('1\n', "1 ", 1), L1], [T2.format('"wave 1"'), T2.format('"wave  1"'), T2.format('"Wave 1"'), T2.format('"wave 1" /* c */')]]
+CHAIN_ENVS = [{"uid": u, "country": c, "us": x, "n": n} for u in (1, "x", 7) for c, x in (("us", "zz"), ("zz", "zz"), ("ca", "ca"), ("1", 1), (1, "1"), ("n", 0), ("wave 1", 0), ("wave  1", 0)) for n in (0, 1)]
+
+
+def check_chain(acc, texts):
+    """ONE evaluator recompiled from text to text (edits that change a token's KIND but not its spelling, an operator, the
+    layout around a comment): after every step it must agree with the module text generated from the text it was just given"""
+    from ..common import quiet
+
+    ev = None
+    for step, text in enumerate(texts):
+        cl = rp.classify(text)
+        if cl[0] != "accept":
+            acc.add("ambiguous_skipped")
+            continue
+        acc.add("programs")
+        try:
+            if ev is None:
+                ev = impl.ExperimentEvaluator(text)
+            else:
+                with quiet():
+                    ev.recompile(text)
+        except Exception as e:  # noqa
+            acc.violation({"kind": "module:chain", "text": text, "expose": False, "sub": "build-diff", "observed": f"{type(e).__name__}: {e}", "chain": texts[: step + 1],
+                           "why": "the evaluator refuses a grammatical text during a chain of recompiles"})  # fmt: skip
+            return
+        g = impl.gen(text, False)
+        if g[0] != "ok":
+            continue
+        ns = {}
+        try:
+            exec(compile(g[1], "<generated>", "exec"), ns)
+        except Exception:  # noqa  (reported by the plain units)
+            continue
+        fn = ns.get(cl[1][1])
+        for env in CHAIN_ENVS:
+            acc.add("evaluations")
+            a, e = outcome(fn, env), outcome(ev, env)
+            if a != e and not (a[0] == "ok" == e[0] and oracle.same_value(a[1], e[1])):
+                acc.violation({"kind": "module:chain", "text": text, "expose": False, "sub": "diff", "env": enc(env), "observed": short(repr(a)), "chain": texts[: step + 1],
+                               "why": f"after this chain of recompiles the in-memory evaluator gives {short(repr(e))}, the module text generated from the last text gives {short(repr(a))}"})  # fmt: skip
+                return
+
+
+FRESH_PROGRAMS = ['def exp { splitters: uid return "a" weighted 1, "b" weighted 2, "c" weighted 1 }',
+                  'def exp { salt: "s" splitters: uid, org if f >= 10 { return "A" weighted 1, 2 weighted 1 } else if f in (1, 2) { return "B" weighted 1 } }',
+                  'def exp { splitters: uid if f == 100000000000000000000000000000000000000000000000000 { return "big" weighted 1 } else { return "small" weighted 1, "x" weighted 1 } }',
+                  'def exp { return "r1" weighted 0, "r2" weighted 5 }']
+# inputs as Python expressions (evaluated on both sides; a 5000-digit int cannot even be parsed from text under the default
+# int-string limit, so it is computed)
+FRESH_INPUTS = ["{'uid': 1, 'org': 'a', 'f': 10}", "{'uid': 'x', 'org': None, 'f': 1}", "{'uid': 10**4299, 'org': 'a', 'f': 3}", "{'uid': 10**5000, 'org': 'a', 'f': 10}",
+                "{'uid': -(10**5000) - 1, 'org': 10**6000, 'f': 1}", "{'uid': 1.5, 'org': 'a', 'f': 10**50}", "{'uid': 1, 'org': 'a'}", "{'uid': float('nan'), 'org': 'é', 'f': 2}",
+                "{'uid': '1' * 5000, 'org': 'a', 'f': 11}", "{'uid': True, 'org': (1, 2), 'f': 10}"]
+_CHILD = r"""
+import json, sys, random
+job = json.loads(sys.stdin.read())
+out = []
+for text, name in job["modules"]:
+    ns = {}
+    try:
+        exec(compile(text, "<generated>", "exec"), ns)
+        fn = ns[name]
+    except Exception as e:
+        out.append(["module-failed", type(e).__name__])
+        continue
+    rows = []
+    for expr in job["inputs"]:
+        env = eval(expr)
+        random.seed(4242)
+        try:
+            v = fn(**env)
+            rows.append(["ok", repr(v), type(v).__name__])
+        except Exception as e:
+            rows.append(["exc", type(e).__name__])
+    out.append(rows)
+sys.stdout.write("@@" + json.dumps(out))
+"""
+
+
+def check_fresh_process(acc):
+    """the module texts executed in a FRESH interpreter that imports nothing but what the text itself imports (stand-alone
+    means: no process-wide setting or registration made by the library's other modules is there to lean on)"""
+    import json
+    import os
+    import subprocess
+    import sys
+
+    from ..common import REPO
+
+    mods, want = [], []
+    for text in FRESH_PROGRAMS:
+        cl = rp.classify(text)
+        b = impl.build(text)
+        if cl[0] != "accept" or b[0] != "ok":
+            continue
+        for expose in (False, True):
+            g = impl.gen(text, expose)
+            if g[0] != "ok":
+                continue
+            acc.add("programs")
+            mods.append((g[1], cl[1][1]))
+            rows = []
+            for expr in FRESH_INPUTS:
+                env = eval(expr)  # noqa: S307  (our own constant expressions)
+                random.seed(4242)
+                try:
+                    v = b[1](**env)
+                    rows.append(["ok", repr(v), type(v).__name__])
+                except Exception as e:  # noqa
+                    rows.append(["exc", type(e).__name__])
+            want.append((text, expose, rows))
+    env = {k: v for k, v in os.environ.items() if not k.startswith("PYTHON")}
+    env.update(PYTHONPATH=os.path.join(REPO, "src"), PYTHONDONTWRITEBYTECODE="1", PYTHONHASHSEED="0")
+    p = subprocess.run([sys.executable, "-c", _CHILD], input=json.dumps({"modules": mods, "inputs": FRESH_INPUTS}), capture_output=True, text=True, timeout=300, env=env)
+    if p.returncode != 0 or "@@" not in p.stdout:
+        from ..common import HarnessFault
+
+        raise HarnessFault("fresh-interpreter child failed: " + p.stderr[-500:])
+    got = json.loads(p.stdout.split("@@", 1)[1])
+    for (text, expose, rows), grows in zip(want, got):
+        if grows and grows[0] == "module-failed":
+            acc.violation({"kind": "module:fresh-process", "text": text, "expose": expose, "sub": "exec", "observed": grows, "why": "the module text cannot be executed in a fresh interpreter"})
+            continue
+        for expr, a, e in zip(FRESH_INPUTS, grows, rows):
+            acc.add("evaluations")
+            if a != e:
+                acc.violation({"kind": "module:fresh-process", "text": text, "expose": expose, "sub": "diff", "input": expr, "observed": short(repr(a)),
+                               "why": f"executed stand-alone in a fresh interpreter the module gives {short(repr(a))}; the evaluator built from the same source gives {short(repr(e))}"})  # fmt: skip
+                break
+
+
 def _work(units):
     acc = progcheck.Acc()
     for u in units:
+        if u[0] == "fresh":
+            check_fresh_process(acc)
+            continue
+        if u[0] == "chain":
+            check_chain(acc, CHAINS[u[1]])
+            continue
         if u[0] == "shape":
             _, P, lo, hi = u
             names = [f"p{k}" for k in range(P)]
@@ -160,6 +302,8 @@ def units(tier):
             envs = [dict({"f": f}, **({s: i for s in split} if split else {})) for f in (-1, 0, 1) for i in ids]
             envs.append({"f": 1})  # missing splitter (when declared): same error class in both
             out.append(("case", "weighted", a, envs))
+    out += [("chain", j) for j in range(len(CHAINS))]
+    out.append(("fresh",))
     return out
 
 
